@@ -110,6 +110,7 @@ impl Sc {
             note: "c06".into(),
             decoy_in_cwd: false,
             echo_mode: false,
+            extra: Default::default(),
         }
     }
 }
